@@ -7,6 +7,7 @@
 cbor_item_t* vg_build(int depth);
 /* allow shared sub-items (an item referenced from several places) */
 extern int vg_share;
+extern int vg_wild_half;
 /* well-formed random encoding into buf (same generator as h_load's), returns length */
 size_t vg_encoding(unsigned char* b, size_t cap, int depth);
 #endif
